@@ -73,6 +73,7 @@ def generate(prop, rng):
         "tick_ns": rng.choice([1000, 1_000_000]),
         "warm_state": rng.random() < 0.3,
         "hardlink": rng.random() < 0.1,
+        "big_threshold": rng.choice([None, None, 0]),
     }
     return {
         "prop": prop,
@@ -120,7 +121,8 @@ def simplify(sc):
                 yield c
                 if i > 60:
                     break
-    simple = {"jobs": 1, "warm_state": False, "hardlink": False, "shared_odb": False, "tick_ns": 1_000_000}
+    simple = {"jobs": 1, "warm_state": False, "hardlink": False, "shared_odb": False, "tick_ns": 1_000_000,
+              "big_threshold": None}
     for k, v in simple.items():
         if sc["cfg"].get(k) != v:
             c = copy.deepcopy(sc)
@@ -224,6 +226,13 @@ def execute(sc, ctx):
         raise HarnessError("scenario violates the engine's preconditions")
     cfg = sc["cfg"]
     seam = ctx.seam
+    if cfg.get("big_threshold") is not None:
+        from dvc_data.hashfile import build as hbuild
+
+        for fn in (hbuild._build_files, hbuild._get_hashes):
+            d = list(fn.__defaults__)
+            d[-1] = cfg["big_threshold"]
+            fn.__defaults__ = tuple(d)
     _install_read_seams(ctx)
     _install_state_points(ctx)
     _install_sql_points(ctx)
